@@ -543,15 +543,43 @@ func CheckC18(c *Ctx) {
 		// Get / Set error identities over the hostile matrix
 		habv := hostileAbvs(v)
 		hval := hostileValues()
-		c.Parallel("getset-"+v.Name, len(habv), 4, func(w *Worker, i int) {
+		// the receiver: the zero object, the highest-code and lowest-code corner objects, and seeded full / sparse objects --
+		// the error must not depend on the state of the object either
+		var receivers []probe.Obj
+		var recvVec []string
+		{
+			rr := c.Rand("getset-receivers", v.Name)
+			receivers = append(receivers, api.New())
+			recvVec = append(recvVec, "")
+			cs := cornerAssigns(api)
+			var as []spec.Assign
+			if len(cs) > 0 {
+				as = append(as, cs[0])
+			}
+			as = append(as, gen.RandomAssign(rr, v), gen.MixedAssign(rr, v), gen.Background(rr, v, 1), v.ZeroAssign())
+			for _, a := range as {
+				if o, err, _ := api.SafeParse(v.Canonical(a)); err == nil && o != nil {
+					receivers = append(receivers, o)
+					recvVec = append(recvVec, v.Canonical(a))
+				}
+			}
+		}
+		c.Extra["getset_receivers_v"+v.Name] = len(receivers)
+		c.Parallel("getset-"+v.Name, len(habv)*len(receivers), 4, func(w *Worker, idx int) {
+			i, ri := idx%len(habv), idx/len(habv)
 			ab := habv[i]
 			m := v.Index(ab)
-			o := api.New()
+			o := receivers[ri].Clone()
+			newStep := Step{Op: "new"}
+			if recvVec[ri] != "" {
+				newStep = Step{Op: "parse", S: recvVec[ri]}
+			}
+			_ = newStep
 			if m < 0 {
 				_, err, p := probe.SafeGet(o, ab)
 				w.Eval()
 				if g := api.Classify(err); p != nil || g.Kind != probe.EInvalidAbv || g.Abv != ab {
-					c.Violate(Violation{Kind: "wrong-error-value", Version: v.Name, Steps: []Step{{Op: "new"}, {Op: "get", S: ab}}, Expected: fmt.Sprintf("*ErrInvalidMetric{%q}", ab), Observed: fmt.Sprint(g, p), Detail: map[string]any{"defect": "get-unknown-abbreviation", "site": "Get"}})
+					c.Violate(Violation{Kind: "wrong-error-value", Version: v.Name, Steps: []Step{newStep, {Op: "get", S: ab}}, Expected: fmt.Sprintf("*ErrInvalidMetric{%q}", ab), Observed: fmt.Sprint(g, p), Detail: map[string]any{"defect": "get-unknown-abbreviation", "site": "Get"}})
 				}
 				w.Count("get-unknown-abbreviation")
 			}
@@ -565,12 +593,12 @@ func CheckC18(c *Ctx) {
 				g := api.Classify(err)
 				if m < 0 {
 					if p != nil || g.Kind != probe.EInvalidAbv || g.Abv != ab {
-						c.Violate(Violation{Kind: "wrong-error-value", Version: v.Name, Steps: []Step{{Op: "new"}, {Op: "set", S: ab, Val: val}}, Expected: fmt.Sprintf("*ErrInvalidMetric{%q}", ab), Observed: fmt.Sprint(g, p), Detail: map[string]any{"defect": "set-unknown-abbreviation", "site": "Set"}})
+						c.Violate(Violation{Kind: "wrong-error-value", Version: v.Name, Steps: []Step{newStep, {Op: "set", S: ab, Val: val}}, Expected: fmt.Sprintf("*ErrInvalidMetric{%q}", ab), Observed: fmt.Sprint(g, p), Detail: map[string]any{"defect": "set-unknown-abbreviation", "site": "Set"}})
 					}
 					w.Count("set-unknown-abbreviation")
 				} else {
 					if p != nil || g.Kind != probe.EValue {
-						c.Violate(Violation{Kind: "wrong-error-value", Version: v.Name, Steps: []Step{{Op: "new"}, {Op: "set", S: ab, Val: val}}, Expected: "ErrInvalidMetricValue", Observed: fmt.Sprint(g, p), Detail: map[string]any{"defect": "set-illegal-value", "site": "Set"}})
+						c.Violate(Violation{Kind: "wrong-error-value", Version: v.Name, Steps: []Step{newStep, {Op: "set", S: ab, Val: val}}, Expected: "ErrInvalidMetricValue", Observed: fmt.Sprint(g, p), Detail: map[string]any{"defect": "set-illegal-value", "site": "Set"}})
 					}
 					w.Count("set-illegal-value")
 				}
@@ -598,7 +626,7 @@ func CheckC18(c *Ctx) {
 		}
 	}
 	c.SetReport(Report{
-		Rule:        "defect injector with planted ground truth: for every element position of well-formed source vectors (pairwise cover + EVERY set of at most 4 / v4: 3 optional metrics defined (thorough 5 / 4) + seeded random spellings) it plants exactly one defect -- illegal value (5 variants; also the element reduced to its abbreviation without a colon, and values containing a second colon), repeated metric (adjacent / at the end / random place, same or other value), unknown abbreviation inserted (6 variants, before the element and at the end; also colon-less tokens and the empty abbreviation) or replacing, misplaced (swap / move; v2,v4), missing base metric (v3), truncation at element boundaries inside a group that must be complete (v2,v4), header variants (v3,v4) -- and the returned error must be the documented value under errors.Is / errors.As (+Abv). Mutants the recogniser still accepts are dropped; defect kinds whose value the statement does not fix (empty v2 string, garbage glued to a v4 header, empty element) are not generated. Get/Set: complete hostile abbreviation x value matrix. distinct = distinct defective strings",
+		Rule:        "defect injector with planted ground truth: for every element position of well-formed source vectors (pairwise cover + EVERY set of at most 4 / v4: 3 optional metrics defined (thorough 5 / 4) + seeded random spellings) it plants exactly one defect -- illegal value (5 variants; also the element reduced to its abbreviation without a colon, and values containing a second colon), repeated metric (adjacent / at the end / random place, same or other value), unknown abbreviation inserted (6 variants, before the element and at the end; also colon-less tokens and the empty abbreviation) or replacing, misplaced (swap / move; v2,v4), missing base metric (v3), truncation at element boundaries inside a group that must be complete (v2,v4), header variants (v3,v4) -- and the returned error must be the documented value under errors.Is / errors.As (+Abv). Mutants the recogniser still accepts are dropped; defect kinds whose value the statement does not fix (empty v2 string, garbage glued to a v4 header, empty element) are not generated. Get/Set: complete hostile abbreviation x value matrix on the zero object, the packed-code corner objects and seeded full / sparse objects (the error must not depend on the receiver's state). distinct = distinct defective strings",
 		Assumptions: []string{"expected error per defect kind exactly as listed in C18's statement"},
 	})
 	c.Finish()
